@@ -17,7 +17,7 @@
    "ring": for every commutative ring with decidable equality, closed at Qc. *)
 From Coq Require Import Sorted.
 From Coq Require Import Permutation.
-From Amgcl Require Import Scalar QcInst Vec Crs Kernels KernelsProofs MatOps Dist DistProofs DistProofsB.
+From Amgcl Require Import Scalar QcInst Vec Crs Kernels KernelsProofs MatOps Dist DistProofs DistProofsB DistProofsT.
 Local Open Scope nat_scope.
 
 (* ------------------------------------------------------------------ *)
@@ -123,14 +123,27 @@ Theorem C11_sort_rows_every_rank (S : Scalar) (D : dmat S) :
 Proof. exact (dist_sort_rows_spec D). Qed.
 Print Assumptions C11_sort_rows_every_rank.
 
+(* mpi::transpose (rank-by-rank model Dist.dist_transpose: local transposes, transposed remote
+   rows shipped to the owners of the columns and appended in send-slot order; compared in STORAGE
+   ORDER with the implementation by bin/check C11): for every row and column partition the
+   assembled result has, row by row, exactly the entries of the serial transpose of the assembled
+   matrix (a permutation: the block of the owning rank comes first) -- any scalar type, duplicate
+   entries and unsorted rows included. *)
+Theorem C11_transpose_every_partition (S : Scalar) (A : crs S) (rparts cparts : list nat) :
+  length rparts = length cparts -> psum rparts = nrows A -> psum cparts = ncols A ->
+  let T := assemble (dist_transpose (split A rparts cparts) rparts) in
+  ncols T = nrows A /\
+  forall j, j < ncols A -> Permutation (nth j (rows T) []) (nth j (rows (transpose A)) []).
+Proof. intros H1 H2 H3. exact (dist_transpose_assembled_perm A rparts cparts H1 H2 H3). Qed.
+Print Assumptions C11_transpose_every_partition.
+
 (* FULL STATEMENTS (unproved, covered by the MPI correspondence runs against the serial kernels):
-   forall A rparts cparts (wf, partitions cover A), for all i j,
-     mget (assemble (dist_transpose (split A rparts cparts))) j i = sadj (mget A i j);
    forall A B (compatible partitions), for all i j,
      mget (assemble (dist_product (split A rp cp) (split B cp kp))) i j = mget (spgemm_saad A B false) i j;
-   remote_rows delivers, for every ghost column c of A in idx order, row c of B as its owner holds it;
+   remote_rows delivers, for every ghost column c of A in idx order, row c of B as its owner holds it
+     (the model Dist.dist_remote_rows is compared with the implementation, no theorem);
    copy between backends preserves local/remote parts and the pattern.
-   No rank-by-rank Coq model of transpose/product/remote_rows exists yet. *)
+   No rank-by-rank Coq model of product exists yet. *)
 
 (* ------------------------------------------------------------------ *)
 Section Ring.
